@@ -119,7 +119,7 @@ def VarTuple(t): return Ty("VarTuple", (t,))
 def MixTuple(prefix, star, suffix): return Ty("MixTuple", (tuple(prefix), star, tuple(suffix)))
 def SeqPat(typ, members): return Ty("SeqPat", (tuple(members),), typ)  # members: (is_many, Ty)
 def DictPat(pairs): return Ty("DictPat", (tuple(pairs),))  # pairs: (key Ty, value Ty, is_many, required)
-def TypedDictT(name, fields, closed=False): return Ty("TypedDict", (tuple(sorted(fields.items())), closed), name)
+def TypedDictT(name, fields, closed=False): return Ty("TypedDict", (tuple(sorted(fields.items())), closed), name)  # closed: False | True | Ty (type of the values of undeclared keys)
 def NewTypeT(name, c): return Ty("NewType", (), (name, c))
 def TypeOf(t): return Ty("TypeOf", (t,))
 def CallableT(): return Ty("Callable")
@@ -383,6 +383,9 @@ def member(o, t: Ty) -> Optional[bool]:
             if not isinstance(kk, str):
                 return False
             if closed and kk not in names:
+                if isinstance(closed, Ty):  # undeclared keys are allowed with values of this type
+                    res.append(member(o[kk], closed))
+                    continue
                 return False
         return and3(res)
     if k == "NewType":
@@ -488,9 +491,9 @@ def _match_pattern(elems: list, members: list) -> Optional[bool]:
 def _strip_qualifiers(hint):
     import typing_extensions
 
-    while typing.get_origin(hint) in (typing_extensions.Required, typing_extensions.NotRequired, typing_extensions.ReadOnly,
-                                      getattr(typing, "Required", None), getattr(typing, "NotRequired", None),
-                                      getattr(typing, "ReadOnly", None)) and typing.get_origin(hint) is not None:
+    quals = {q for mod in (typing, typing_extensions) for n in ("Required", "NotRequired", "ReadOnly")
+             if (q := getattr(mod, n, None)) is not None}
+    while typing.get_origin(hint) in quals:
         (hint,) = typing.get_args(hint)
     return hint
 
@@ -558,7 +561,7 @@ def callsig_params_text(ps) -> str:
 
 
 _CS_MODULE = None
-_CS_INDEX: dict = {}  # params -> (function, protocol class)
+_CS_INDEX: dict = {}  # params -> [serial number, function, protocol class]
 _CS_PARAMS_OF: dict = {}  # reference function -> params
 _CS_MASK: dict = {}
 _CS_CALLS: list = []
@@ -576,37 +579,43 @@ def _callsig_module():
     return _CS_MODULE
 
 
-def _callsig_build(ps):
+def _callsig_build(ps, what: int):
+    """what: 0 = the reference function, 1 = the Protocol class (built separately, on first use)."""
     ps = tuple(tuple(p) for p in ps)
-    got = _CS_INDEX.get(ps)
-    if got is None:
+    slot = _CS_INDEX.get(ps)
+    if slot is None:
+        slot = _CS_INDEX[ps] = [len(_CS_INDEX), None, None]
+    if slot[1 + what] is None:
         mod = _callsig_module()
-        i = len(_CS_INDEX)
-        checks = []
-        for n, k, _d, t in ps:
-            if k == VA:
-                checks.append(f"    for _v in {n}:\n        if not isinstance(_v, {t}): raise CallSigBad({n!r})")
-            elif k == VK:
-                checks.append(f"    for _v in {n}.values():\n        if not isinstance(_v, {t}): raise CallSigBad({n!r})")
-            else:
-                checks.append(f"    if not isinstance({n}, {t}): raise CallSigBad({n!r})")
+        i = slot[0]
         text = callsig_params_text(ps)
-        src = (f"def f{i}({text}) -> None:\n" + ("\n".join(checks) or "    pass") + "\n"
-               f"class P{i}(Protocol):\n    def __call__(self{', ' if text else ''}{text}) -> None: ...\n")
+        if what == 0:
+            checks = []
+            for n, k, _d, t in ps:
+                if k == VA:
+                    checks.append(f"    for _v in {n}:\n        if not isinstance(_v, {t}): raise CallSigBad({n!r})")
+                elif k == VK:
+                    checks.append(f"    for _v in {n}.values():\n        if not isinstance(_v, {t}): raise CallSigBad({n!r})")
+                else:
+                    checks.append(f"    if not isinstance({n}, {t}): raise CallSigBad({n!r})")
+            src = f"def f{i}({text}) -> None:\n" + ("\n".join(checks) or "    pass") + "\n"
+        else:
+            src = f"class P{i}(Protocol):\n    def __call__(self{', ' if text else ''}{text}) -> None: ...\n"
         exec(compile(src, "<vp_callsigs>", "exec", dont_inherit=True), mod.__dict__)
-        got = _CS_INDEX[ps] = (mod.__dict__[f"f{i}"], mod.__dict__[f"P{i}"])
-        _CS_PARAMS_OF[got[0]] = ps
-    return got
+        slot[1 + what] = mod.__dict__[f"{'fP'[what]}{i}"]
+        if what == 0:
+            _CS_PARAMS_OF[slot[1]] = ps
+    return slot[1 + what]
 
 
 def callsig_function(ps):
     """The reference function of the signature (also THE canonical member of its callable type)."""
-    return _callsig_build(ps)[0]
+    return _callsig_build(ps, 0)
 
 
 def callsig_protocol(ps):
     """A Protocol class whose __call__ has the signature."""
-    return _callsig_build(ps)[1]
+    return _callsig_build(ps, 1)
 
 
 def callsig_calls() -> list:
